@@ -122,7 +122,7 @@ func countWeighted(fn *ssa.Function, from ssa.Instruction, startBlock *ssa.Basic
 			} else if from == nil {
 				reach = reachableBlocks([]*ssa.BasicBlock{fn.Blocks[0]}, nil)
 			} else {
-				reach = reachableBlocks(from.Block().Succs, nil)
+				reach = reachableAfter(from.Block(), nil)
 				reach[from.Block()] = reach[from.Block()] || inCycle[from.Block()]
 			}
 		}
@@ -145,7 +145,7 @@ func blocksOnCycles(fn *ssa.Function) map[*ssa.BasicBlock]bool {
 	out := map[*ssa.BasicBlock]bool{}
 	for _, b := range fn.Blocks {
 		// b is on a cycle iff b is reachable from one of its successors
-		r := reachableBlocks(b.Succs, nil)
+		r := reachableAfter(b, nil)
 		if r[b] {
 			out[b] = true
 		}
